@@ -130,6 +130,14 @@ def _wrapped(fn):
 '''
 
 
+# options may also reach the program through a wrapper that rebuilds sys.argv (here: from an environment variable) before
+# the tests are started: the command line in force is sys.argv as it is when main() is called
+ENV_ARGS = """import sys as _sys
+if os.environ.get('TDDA_EXTRA_ARGS'):
+    _sys.argv = [_sys.argv[0]] + os.environ['TDDA_EXTRA_ARGS'].split() + _sys.argv[1:]
+"""
+
+
 def gen_module(rng):
     names = rng.sample(['TA', 'TB', 'TC', 'TD', 'Ta'], rng.randint(1, 4))
     classes = []
@@ -178,6 +186,7 @@ def module_text(classes, hook=False):
             out.append('    def %s(self): _log(type(self).__name__ + %r)' % (m, '.' + m))
     if hook:
         out.append(LOAD_TESTS % ', '.join(c[0] for c in classes))
+    out.append(ENV_ARGS)
     out.append("if __name__ == '__main__':\n    ReferenceTestCase.main()\n")
     text = '\n'.join(out)
     if sum(map(ord, text)) % 4 == 0:
@@ -277,6 +286,12 @@ def run_subprocess(workdir, idx, text, argv):
     logp = os.path.join(path, 'log.txt')
     open(logp, 'w').close()
     env = dict(os.environ, TLOG=logp, PYTHONPATH=lib.REPO, PYTHONHASHSEED='0')
+    env.pop('TDDA_EXTRA_ARGS', None)
+    if idx % 4 == 1 and argv[1:] and all(a.startswith('-') and ' ' not in a and a for a in argv[1:]) and '-k' not in argv \
+            and not any(a in WRITE for a in argv):
+        # every option through the wrapper's environment variable, none on the command line itself
+        env['TDDA_EXTRA_ARGS'] = ' '.join(argv[1:])
+        argv = argv[:1]
     p = subprocess.run([lib.PY, 'mod.py'] + argv[1:], cwd=path, env=env,
                        stdout=subprocess.PIPE, stderr=subprocess.PIPE, text=True, timeout=120)
     executed = open(logp).read().split()
@@ -485,6 +500,14 @@ def run(ctx):
             argv = [argv[0]] + opts_[:k_] + names_ + opts_[k_:]
             tail = []
             extra = 'dotted'
+        elif in_dom and 0.52 <= r < 0.6:
+            # an old-style single-test class (a runTest method and no test* methods) that carries the tag - on the class or
+            # on the method: it runs under the tagged option and is named by the list option like any other tagged test
+            on_class = rng.random() < 0.5
+            classes = list(classes) + [('TR', None, on_class, [('runTest', not on_class)])]
+            argv = [a for a in argv if a not in [c[0] for c in classes]] + rng.choice([[], ['TR']])
+            tail = []
+            extra = 'runtest'
         elif in_dom and r < 0.52:
             # the tagged / list option AFTER -w and its kinds
             tail = [rng.choice(WRITE)] + rng.choice([['graph'], ['graph', 'table'], ['a,b']]) + [rng.choice(['-1', '-0', '-10'])]
@@ -507,7 +530,7 @@ def run(ctx):
             ctx.bump('B.extra.' + extra)
             if extra == 'hook':
                 listed = sorted(set(listed), key=listed.index)     # a hook module names each class once per suite level
-            if extra in ('k', 'dotted', 'after-w'):
+            if extra in ('k', 'dotted', 'after-w', 'runtest'):
                 mo = None                                          # outside the model: decided by the oracle
             elif mo is not None and cat == 'ran':
                 executed = sorted(executed)
